@@ -32,7 +32,10 @@ def gen_limits(rng, names, x0, never_decreases):
     lims = []
     for i, _ in enumerate(names):
         r = rng.random()
-        if r < 0.45:
+        if x0[i] == 0 and rng.random() < 0.25:
+            # a compartment that must stay empty: upper limit exactly 0 (a falsy number)
+            lims.append([None if never_decreases[i] and rng.random() < 0.5 else 0, 0])
+        elif r < 0.45:
             lims.append(None)                                   # default (0, None)
         elif r < 0.60:
             lims.append([0, None])
@@ -94,6 +97,19 @@ def gen_case(S, tier, prop, force=None):
                     if names[0] == names[-1]:
                         raise core.HarnessError("transition-only model needs two states")
         break
+    mixed = bool(force.get("mixed"))
+    drained = set()
+    if mixed:
+        # events plus explicit ODE terms: under tau-leap the deterministic drift tau*g(x,t) is added to every leap,
+        # so the limits must hold against drift as well (only the limit oracles apply to such a model)
+        odes = []
+        for s_ in rng.sample(list(names), min(len(names), rng.randint(1, 2))):
+            other = rng.choice(list(names))
+            eq = rng.choice(["-0.7", "-1.5", "-4.0", "-0.3*%s" % s_, "0.8", "2.5", "-0.4*%s" % other, "0.2*%s" % other])
+            odes.append({"state": s_, "eq": eq})
+            if eq.startswith("-"):
+                drained.add(s_)
+        model["odes"] = odes
     nn = len(names)
     x0 = [int(rng.randint(0, popN)) for _ in names]
     if sum(x0) == 0:
@@ -106,6 +122,7 @@ def gen_case(S, tier, prop, force=None):
             for tr in pr["trans"]:
                 if tr["type"] in ("T", "D"):
                     lowered.add(tr["o"])
+        lowered |= drained
         from ..refmodel import expand_names
         nd = [not any(nm in lowered for nm in expand_names([s["name"]])) for s in model["states"]]
         lims = gen_limits(rng, names_for_decl(model), decl_x0(model, x0), nd)
@@ -135,7 +152,7 @@ def gen_case(S, tier, prop, force=None):
             T = t0 + (T - t0) * target / est
             est = estimate_events(ref, theta, x0, t0, T)
     T = float(round(T, 6)) if T - t0 > 1e-3 else t0 + 1e-3
-    exact = force.get("exact", rng.random() < 0.55)
+    exact = force.get("exact", rng.random() < 0.55) and not mixed
     est_steps = est
     if not exact:
         # adaptive tau can be far smaller than the mean time between events: estimate the number of
@@ -204,6 +221,8 @@ def gen_case(S, tier, prop, force=None):
     case = {"engine": "jump", "model": model, "theta": theta, "x0": x0, "t0": t0, "env": env,
             "ops": ops, "est_events": float(round(est, 3)), "est_steps": float(round(est_steps, 3)),
             "batch": batch, "checks": [prop]}
+    if mixed:
+        case["mixed"] = True
     return case
 
 
@@ -338,7 +357,10 @@ def check_raw_path(sess, op, X, J, T, log, out, stats, single):
             F(fail("C04.termination.overrun", k, "stepping continued after the horizon %r was passed (t=%r)" % (horizon, T[k])))
     # ---- counts and deltas -----------------------------------------------------------------------------
     Vc = ref.Vnum(sess.x0, sess.t0, theta)      # numeric magnitudes: constant in (x,t)
+    mixed = bool(sess.case.get("mixed"))
     for k in range(K):
+        if mixed:
+            break               # drift: the state change is V*counts + tau*g, not a walk of the events alone
         c = J[k].astype(float)
         if not (is_int_array(c) and np.all(c >= 0)):
             F(fail("C04.walk.counts", k, "counts %s are not non-negative integers" % c.tolist()))
@@ -363,7 +385,9 @@ def check_raw_path(sess, op, X, J, T, log, out, stats, single):
             k = int(np.argmax(tot != tot[0]))
             F(fail("C10.stoch.sum", k, "total population %r -> %r at step %d" % (tot[0], tot[k], k)))
     # ---- refinement and termination from the draw log --------------------------------------------------
-    if single and log is not None:
+    if mixed:
+        stats["mixed_paths"] = stats.get("mixed_paths", 0) + 1
+    elif single and log is not None:
         replay_log(sess, op, X, J, T, log, out, stats)
     elif K >= 0 and T[-1] < horizon:
         stats["termination_unchecked"] = stats.get("termination_unchecked", 0) + 1
